@@ -86,6 +86,9 @@ func runC15(r *Result, thorough bool) {
 			}
 			return hg.NewInmemStore(10000)
 		})
+		// membership requests whose key is spelled in lower-case hex travel inside events and blocks:
+		// the string is part of the hashed and signed JSON and must survive every form verbatim
+		cl.spellAlways = ri%2 == 0
 		steps := 250 + rng.Intn(150)
 		var joiner *member
 		k := 0
